@@ -167,6 +167,11 @@ def make_scenarios(prop, tier, seed):
         if prop in ("C16", "C17"):
             sc["max_steps"] = 5      # these checks are about compilation, not about the episode
         out.append(sc)
+    if prop == "C06":
+        # the exhaustive decision trees of tiny classic instances against an independent optimum
+        for t in gen.c06_tree_stream(seed, tier):
+            t["props"] = [prop]
+            out.append(t)
     if prop == "C16":
         # the malformed stream: one defect per document, every class in turn
         for i in range(n // 2):
